@@ -562,7 +562,7 @@ def oracle(c):
         return {"rows": out}
     if op == "count":
         k = c["k"]
-        if n ** k > 4096 or k > 8:   # count_kmers builds all |A|^k labels and asserts k <= 8
+        if n ** k > 20000 or k > 8:   # count_kmers builds all |A|^k labels and asserts k <= 8
             return SKIP
         labels = ["".join(alpha[(h // n ** j) % n] for j in range(k)) for h in range(n ** k)]
         per = []
@@ -652,6 +652,8 @@ def model_request(c):
         return None      # outside the model's stated int64 range: implementation vs exact oracle only
     if op == "pwm" and c.get("seq_alpha", c["alpha"])[:n] != c["alpha"]:
         return None
+    if sum(len(x) for x in c.get("rows", [])) > 3000:
+        return None      # the list model is quadratic in the row length: long rows are judged against the oracle only
     r = dict(c)
     if op == "pwm" and c.get("build"):
         r["matrix"] = [[_bits(x) for x in row] for row in _pwm_matrix(c)]
@@ -766,7 +768,7 @@ def _ops_for(rng, alpha, rows, w, big, shape="ragged"):
             yield dict(base, op="match_same", pat=p, **({"ws": True} if rng.random() < 0.3 else {}))
         if alpha in ("ACGT", "ACGTN", "AB") and rng.random() < 0.3:
             yield dict(base, op="match", pat=p, via="ascii")
-    if w <= 12:
+    if w <= 31:
         yield dict(base, op="pwm", matrix=_matrix(rng, n, w), **({"via": "ascii"} if rng.random() < 0.5 else {}))
         if rng.random() < 0.4:
             yield dict(base, op="pwm_old", matrix=_matrix(rng, n, w), **({"entry": "class"} if rng.random() < 0.5 else {}))
@@ -875,6 +877,38 @@ def cases(tier, rng):
             if calls[-1]["op"] == "kmers":
                 calls[-1].pop("axis")
         yield {"op": "fresh", "calls": calls}
+    # 0a4. products of (letter code, window, position) past 2^8 / 2^16: big alphabets x wide windows with the highest codes late in
+    #      the window, and rows longer than 255 / 65535 letters
+    big_alphas = [ALPHABETS["AMINO"], "ABCDEFGHIJKLMNOPQRSTUVWXYZ", "ABCDEFGHIJKLMNOP"]
+    for alpha in big_alphas:
+        n = len(alpha)
+        for w in ((10, 12, 13, 14, 16, 17, 20, 26, 31) if big else (12, 13, 17, 26, 31)):
+            rows = _rand_rows(rng, n, [w + 3, w - 1, w, 2 * w + 1])
+            rows[0] = [rng.randrange(n) for _ in range(3)] + [n - 1 - (i % 2) for i in range(w)]      # highest codes at every position
+            rows[3] = rows[3][:w] + [n - 1] * (w + 1)
+            base = {"alpha": alpha, "rows": rows}
+            yield dict(base, op="pwm", matrix=_matrix(rng, n, w))
+            yield dict(base, op="pwm", matrix=_matrix(rng, n, w), via="ascii") if alpha.isalpha() else dict(base, op="pwm_old", matrix=_matrix(rng, n, w))
+            yield dict(base, op="pwm_old", matrix=_matrix(rng, n, w), entry="class")
+            yield dict(base, op="match", pat=rows[0][3:3 + w])
+            yield dict(base, op="match_same", pat=rows[3][w:2 * w])
+            if n ** w <= 2 ** 63:
+                yield dict(base, op="kmers", k=w)
+                yield dict(base, op="minimizers", k=w - 1, w=w)
+        for k in (2, 3):
+            if n ** k <= 20000:
+                yield {"op": "count", "alpha": alpha, "rows": _rand_rows(rng, n, [9, 0, k, 40]), "k": k, "axis": rng.choice([None, -1])}
+    for alpha in ("ACGT", ALPHABETS["AMINO"], "ACGTN"):
+        n = len(alpha)
+        for lens in ([300, 0, 255, 256, 257], [70000, 3, 65536] if big or alpha == "ACGT" else [66000]):
+            rows = _rand_rows(rng, n, lens)
+            w = rng.choice([2, 3])
+            yield {"op": "kmers", "alpha": alpha, "rows": rows, "k": w, "text": False}
+            yield {"op": "match", "alpha": alpha, "rows": rows, "pat": rows[0][-w:]}
+            yield {"op": "pwm", "alpha": alpha, "rows": rows, "matrix": _matrix(rng, n, w)}
+            yield {"op": "minimizers", "alpha": alpha, "rows": rows, "k": 2, "w": 4}
+            if n ** w <= 4096:
+                yield {"op": "count", "alpha": alpha, "rows": rows, "k": w, "axis": -1}
     # 0b. many rows (>= 17) in one call, plain and as views
     for _ in range(300 if big else 40):
         alpha = rng.choice(names)
